@@ -97,6 +97,12 @@ for _n in ("sqrt", "fabs", "ceil", "floor", "trunc", "rint", "nearbyint", "round
 LIBM_AS_INTR["nearbyint"] = LIBM_AS_INTR["nearbyintf"] = "llvm.rint"
 
 
+def malloc_result(name, args):
+    """pointer returned by malloc & co.: suitably aligned for any fundamental type
+    (alignof(max_align_t) == 16 on x86-64): the low 4 bits are zero"""
+    return T.concat([T.const(4, 0), T.opaque(60, "call:" + name, *args)])
+
+
 class Interp:
     def __init__(self, module, isa=None):
         self.m = module
@@ -498,7 +504,9 @@ class Interp:
                 self.do_store(args[0], T.opaque(64, "call:posix_memalign", args[1], args[2]), cond, 8,
                               "posix_memalign", ins.get("loc"))
                 return T.opaque(bits, "posix_memalign-status", args[1], args[2])
-            if name in ("malloc", "aligned_alloc", "free", "calloc", "realloc"):
+            if name in ("malloc", "calloc", "realloc"):
+                return malloc_result(name, args)
+            if name in ("aligned_alloc", "free"):
                 return T.opaque(bits, "call:" + name, *args) if bits else None
             if name in ("copysign", "copysignf"):
                 return T.concat([T.slice_(args[0], 0, bits - 1), T.msb(args[1])])
